@@ -159,7 +159,14 @@ func (pool *TxPool) delTx(tx *types.Transaction) {
 	// delete indexes of sub transactions in box transaction
 	if tx.Type() == params.BoxTx {
 		for _, subTx := range getSubTxs(tx) {
-			delete(pool.hashIndexMap, subTx.Hash())
+			subHash := subTx.Hash()
+			// The sub tx is packaged with its box. If it is pending by itself (or in another box), that tx must leave the pool too,
+			// or it would stay in txs without index: packaged again and never deletable
+			if index, ok := pool.hashIndexMap[subHash]; ok && pool.txs[index] != nil {
+				pool.txs[index] = nil
+				txPoolTotalNumberCounter.Dec(1)
+			}
+			delete(pool.hashIndexMap, subHash)
 		}
 	}
 }
